@@ -56,7 +56,7 @@ def extra_triple(gen, minor):
     """C07-specific enrichments; returns (cls, base, local, remote, info)"""
     import copy
     r = gen.rng
-    cls = r.choice(["both_append_end", "edit_in_deleted", "insert_next_deleted", "empty_one_side", "whitespace_only", "same_change_plus_conflict"])
+    cls = r.choice(["both_append_end", "edit_in_deleted", "insert_next_deleted", "empty_one_side", "whitespace_only", "same_change_plus_conflict", "two_conflict_regions", "two_conflict_regions"])
     base = gen.notebook(minor, ncells=r.choice([2, 3, 4]))
     m = base["nbformat_minor"]
     from ..workloads import _plain
@@ -94,6 +94,18 @@ def extra_triple(gen, minor):
         ll[1] = rl[1] = "both sides agree on this %d" % r.randrange(99)
         ll[4] = lines[4] + " local"
         rl[4] = lines[4] + " remote"
+        loc["cells"][k]["source"] = "\n".join(ll) + fin
+        rem["cells"][k]["source"] = "\n".join(rl) + fin
+    elif cls == "two_conflict_regions":
+        # both sides rewrite two (or three) separate lines of one cell differently: several conflict regions
+        n = r.choice([6, 8, 10])
+        lines = ["statement number %d of the cell = %d" % (j, r.randrange(1000)) for j in range(n)]
+        fin = r.choice(["\n", ""])
+        base["cells"][k]["source"] = "\n".join(lines) + fin
+        ll, rl = list(lines), list(lines)
+        for j in sorted(r.sample(range(n), r.choice([2, 3]))):
+            ll[j] = lines[j] + "  # local variant %d" % r.randrange(99)
+            rl[j] = "remote variant %d: " % r.randrange(99) + lines[j]
         loc["cells"][k]["source"] = "\n".join(ll) + fin
         rem["cells"][k]["source"] = "\n".join(rl) + fin
     elif cls == "whitespace_only":
